@@ -17,11 +17,39 @@ from ..anf import R, Unsupported
 from .common import purity_obligations, struct_ob, formula_ob, guard, last_return, U
 from .gpm import gp_expander, refs, mob, REL
 from ..report import AnalysisError
+from ..term import Resolver, pmatch
 
 COV = "inference/gp/covariance.py"
 MEAN = "inference/gp/mean.py"
 FLOORS = {"mean-gradient-depends": 2, "mean-gradient-form": 3, "kernel-derivative-terms": 2,
           "gradient-cov-rank": 1, "variance-derivative-form": 1, "gradient-mean-form": 2, "arguments-not-mutated": 12}
+
+
+def _roles(fn):
+    """Roles from the shape of the return statement: the mean-derivative and (co)variance-derivative results are either lists
+    filled by `.append(value)` and returned as `array(list)`, or arrays filled row by row `name[i, :] = value`.
+    Returns [(result name, value expression, statement)] for position 0 (mean) and 1 (variance / covariance)."""
+    ret = last_return(fn)
+    if ret is None or not isinstance(ret.value, ast.Tuple) or len(ret.value.elts) != 2:
+        raise AnalysisError(f"anchor vanished: {fn.name} does not return (mean derivative, variance derivative)")
+    out = []
+    for e in ret.value.elts:
+        name = None
+        for n in ast.walk(e):
+            if isinstance(n, ast.Name) and n.id not in ("array", "sqrt", "abs", "stack", "squeeze"):
+                name = n.id
+        if name is None:
+            raise AnalysisError(f"anchor vanished: result name in the return of {fn.name}")
+        vals = []
+        for st in ast.walk(fn):
+            if isinstance(st, ast.Expr) and isinstance(st.value, ast.Call) and U(st.value.func) == f"{name}.append" and st.value.args:
+                vals.append((st.value.args[0], st))
+            elif isinstance(st, ast.Assign) and isinstance(st.targets[0], ast.Subscript) and U(st.targets[0].value) == name:
+                vals.append((st.value, st))
+        if len(vals) != 1:
+            raise AnalysisError(f"anchor vanished: single per-point value of `{name}` in {fn.name} ({len(vals)} found)")
+        out.append((name, vals[0][0], vals[0][1]))
+    return out
 
 
 def run(prog, tier):
@@ -30,24 +58,11 @@ def run(prog, tier):
     # ---------------------------------------------------------------- the mean function enters both predictors
     for mname, var in (("gradient", "mean"), ("spatial_derivatives", "dmu_dx")):
         c, fn = prog.method("GpRegressor", mname)
-        defs = [s for s in ast.walk(fn) if isinstance(s, ast.Assign) and U(s.targets[0]) == var]
-        ok, why = False, f"no definition of `{var}`"
-        if len(defs) == 1:
-            # transitive dependence of the returned mean derivative on self.mean
-            names = {n.id for n in ast.walk(defs[0].value) if isinstance(n, ast.Name)}
-            src = {U(s.targets[0]): s.value for s in ast.walk(fn) if isinstance(s, ast.Assign) and len(s.targets) == 1}
-            seen, todo = set(), list(names)
-            dep = "self.mean" in U(defs[0].value).replace("self.mean_hyperpars", "")
-            while todo and not dep:
-                n = todo.pop()
-                if n in seen or n not in src:
-                    continue
-                seen.add(n)
-                if "self.mean." in U(src[n]) or "self.mean(" in U(src[n]):
-                    dep = True
-                todo.extend(x.id for x in ast.walk(src[n]) if isinstance(x, ast.Name))
-            ok = dep
-            why = f"`{U(defs[0])}`"
+        roles = _roles(fn)
+        rz0 = Resolver(fn, prog, c.module, c)
+        mt = U(rz0.term(roles[0][1], roles[0][2]))
+        ok = "self.mean.gradient(" in mt or "self.mean(" in mt
+        why = f"per-point mean derivative `{mt[:200]}`"
         obs.append(struct_ob("mean-gradient-depends", qual(c, fn), ok,
                              f"the predicted mean gradient must depend on the mean function (a non-constant mean contributes its own "
                              f"spatial gradient): {why}", REL, fn.lineno))
@@ -82,19 +97,32 @@ def run(prog, tier):
                     return M.atom("AK", 2)                # A o K_qx      (d x n)
             return orig(node, env)
         ex.mbinop = mbinop
-        env = {fn.args.args[1].arg: M.atom("points", 2), "mu_q": ListV([]), "vars": ListV([]),
-               "mu_gradients": ListV([]), "var_gradients": ListV([])}
+        roles = _roles(fn)
+        env = {fn.args.args[1].arg: M.atom("points", 2)}
+        for nm_, _, st_ in roles:
+            if isinstance(st_, ast.Expr):
+                env[nm_] = ListV([])
+        cov_stmt = roles[1][2] if mname == "gradient" else None
+        cov_names = {n_.id for n_ in ast.walk(roles[1][1]) if isinstance(n_, ast.Name)} if mname == "gradient" else set()
+
         def without_cov(stmts):
             out = []
             for s_ in stmts:
-                if isinstance(s_, ast.Assign) and U(s_.targets[0]) == "covariance":
+                # the covariance of the gradient is decided separately (rank rule): its statements are left out here
+                if s_ is cov_stmt or (mname == "gradient" and isinstance(s_, ast.Assign) and isinstance(s_.targets[0], ast.Name)
+                                      and s_.targets[0].id in cov_names and s_.targets[0].id in ("covariance",)):
                     continue
                 if isinstance(s_, ast.For):
                     s_ = ast.For(target=s_.target, iter=s_.iter, body=without_cov(s_.body), orelse=s_.orelse, lineno=s_.lineno, col_offset=0)
                 out.append(s_)
             return out
         guard(lambda: ex.exec_block(without_cov([s for s in fn.body if not isinstance(s, ast.Return)]), env))
-        got = env.get(var)
+        def role_value(k_):
+            if isinstance(roles[k_][2], ast.Expr):
+                lst = env.get(roles[k_][0])
+                return lst.items[0] if isinstance(lst, ListV) and len(lst.items) == 1 else None
+            return env.get(U(roles[k_][2].targets[0]))
+        got = role_value(0)
         # numpy broadcasting of the (d,) mean gradient against the (d,1) kernel term is written dm[:, None]
         want = M.atom("At", 2).matmul(M.atom("KqxA", 2).T()) + M(dict(M.atom("dmq", 1).terms), 2)
         o_ = mob("gradient-mean-form", qual(c, fn), got, want, fn.lineno,
@@ -107,25 +135,24 @@ def run(prog, tier):
         obs.append(o_)
         if mname == "spatial_derivatives":
             r = refs()
-            dv = env.get("dV_dx")
+            dv = role_value(1)
             want_v = M.atom("AK", 2).matmul(r["Kinv"]).matmul(M.atom("Kqx", 2).T()).scale(-2)
             obs.append(mob("variance-derivative-form", qual(c, fn), dv, want_v, fn.lineno,
                            "variance derivative = -2 (A o K_qx) K^-1 K_xq"))
         else:
             # covariance = diag(R) - Q^T Q with R the vector of prior gradient variances
-            cdef = [s for s in ast.walk(fn) if isinstance(s, ast.Assign) and U(s.targets[0]) == "covariance"]
-            ok, why = False, "no `covariance` definition"
+            cdef = [roles[1][2]]
+            ok, why = False, "no covariance value"
             if len(cdef) == 1:
-                v = cdef[0].value
+                v = roles[1][1]
+                rz_ = Resolver(fn, prog, c.module, c)
+                vt = rz_.term(v, cdef[0])
                 why = U(v)
-                ok = (isinstance(v, ast.BinOp) and isinstance(v.op, ast.Sub)
-                      and U(v.left) in ("diag(R)",) and U(v.right).replace("(", "").replace(")", "") == "Q.T @ Q")
-                # R is the second value returned by gradient_terms, Q = L^-1 (A o K_qx)^T
-                gt = [s for s in ast.walk(fn) if isinstance(s, ast.Assign) and isinstance(s.value, ast.Call)
-                      and U(s.value.func) == "self.cov.gradient_terms"]
-                ok = ok and len(gt) == 1 and U(gt[0].targets[0]) == "(A, R)"
-                qd = [s for s in ast.walk(fn) if isinstance(s, ast.Assign) and U(s.targets[0]) == "Q"]
-                ok = ok and len(qd) == 1 and U(qd[0].value) == "solve_triangular(self.L, (A * K_qx).T, lower=True)"
+                G = "self.cov.gradient_terms(*_)"
+                ok = any(pmatch(vt, pt) is not None for pt in (
+                    f"diag(_g[1]) - solve_triangular(self.L, (_g[0] * _k).T, lower=True).T @ solve_triangular(self.L, (_g[0] * _k).T, lower=True)",
+                    f"diag(_g[1]) - (solve_triangular(self.L, (_g[0] * _k).T, lower=True).T @ solve_triangular(self.L, (_g[0] * _k).T, lower=True))"))
+                ok = ok and len([n_ for n_ in ast.walk(fn) if isinstance(n_, ast.Call) and U(n_.func) == "self.cov.gradient_terms"]) == 1
             obs.append(struct_ob("gradient-cov-rank", qual(c, fn), ok,
                                  f"the gradient covariance must be diag(prior gradient variances) - Q^T Q with Q = L^-1 (A o K_qx)^T; a "
                                  f"length-d vector minus a d x d matrix broadcasts row-wise and is not symmetric: `{why}`",
